@@ -811,8 +811,8 @@ func (c *streamCtx) dirC20() []genCase {
 				b.node(3, 8100, forced())
 				b.node(4, 5000, escAge(c.base, 10))
 				m.f(b)
-				if st == 1 {
-					b.st.ScaleDelta, b.st.LastOutAgeNs = 1, i64p(sec(4000))
+				if st == 1 { // the last scale-out lies before every node's creation: the registration-lag lookup visits each of them
+					b.st.ScaleDelta, b.st.LastOutAgeNs = 1, i64p(sec(100000))
 				}
 				b.util(pct, 0, true, false)
 				b.done()
